@@ -48,7 +48,10 @@ CFG = {
         "logging CacheFacade wrapper around the real mux.FacadeMap / mux.FacadeLRU (passes every call through, "
         "reads contents with Peek below the log)",
         "gate scheduler of the scheduled runs: a worker parks before each instrumented call and is released one "
-        "call at a time; 'request queued' is signalled from ctx.Done(), which AsyncC.R evaluates after AddReq",
+        "call at a time; 'request queued' is signalled from ctx.Done(), which AsyncC.R evaluates after AddReq; "
+        "every key handed to the group carries its job (stripped by the logging facade), so each parked call names "
+        "its job; a call made by a caller's own goroutine (recognised by goroutine id) is parked and released "
+        "like a worker's and written down as label GCaller, which no run of the machine has",
         "sync.Mutex/RWMutex/Cond, channels and goroutine scheduling of the Go runtime (modelled: one queue per "
         "worker, handlers of one worker run one after another)",
     ],
